@@ -148,7 +148,7 @@ void *exact_copy(const void *p, size_t n) {
 }
 
 static const VhOp *const tables[] = {vh_scalar_ops, vh_array_ops, vh_bits_ops, vh_bitmap_ops,
-                                     vh_float_ops,  vh_adaptive_ops, vh_mem_ops, vh_oom_ops, vh_packed_ops, vh_dim_ops};
+                                     vh_float_ops,  vh_adaptive_ops, vh_mem_ops, vh_oom_ops, vh_thread_ops, vh_packed_ops, vh_dim_ops};
 
 static VhFn lookup(const char *name) {
     for (size_t t = 0; t < sizeof(tables) / sizeof(tables[0]); t++) {
